@@ -174,10 +174,12 @@ def _assume_inv(st, lc, inv):
 # ---------------------------------------------------------------------------------------- for
 def run_for(ex, s, st):
     outs = []
+    custom = ex.spec.calls.get('for:' + loop_key(ex, s))
+    if custom is not None and getattr(custom, 'no_iter', False):
+        return custom(ex, s, st, None)          # the handler gives the iterated sequence itself (the expression is not evaluated)
     for s1, it in ex.ev(s.iter, st):
         if isinstance(it, Raise): outs.append((s1, ('raise', it.exc))); continue
         items = static_items(ex, it)
-        custom = ex.spec.calls.get('for:' + loop_key(ex, s))
         if custom is not None: outs.extend(custom(ex, s, s1, it))
         elif items is not None: outs.extend(unrolled(ex, s, s1, items))
         elif isinstance(it, (PSeq,)) or (isinstance(it, ZV) and it.kind == 'val'): outs.extend(for_seq(ex, s, s1, it))
